@@ -504,12 +504,15 @@ func multipleSexesGuard(p *load.Prog) (bool, string) {
 }
 
 var tableSideConditions = map[string]func(p *load.Prog) (bool, string){
+	"P3 index []string in gedcom.parseMonthName":                                     monthNameGroup,
+	"P3 slice string in (gedcom.Date).String":                                        monthAbbreviation,
+	"P3 index []string const 0 in (gedcom.DateConstraint).String":                    splitFirst,
+	"P3 slice string in (gedcom.SimilarityOptions).String":                           goSyntaxPrefix,
 	"P3 index []bool in gedcom.jaro":                                                 jaroWindow,
 	"P3 index string in gedcom.JaroWinkler":                                          jaroWinklerPrefix,
 	"P3 index string in gedcom.JaroWinkler #2":                                       jaroWinklerPrefix,
 	"P3 index gedcom.IndividualNodes in gedcom.createPointerJobs$1":                  stridedWorkerIndex("createPointerJobs"),
 	"P3 index gedcom.IndividualNodes in gedcom.createUniqueJobs$1":                   stridedWorkerIndex("createUniqueJobs"),
-	"P3 index string const 0 in html.surnameStartsWith":                              surnameFirstByte,
 	"P3 index []*gedcom.DateNode const 0 in (*html.EventDate).WriteHTMLTo":           eventDateBlank,
 	"P3 slice []string in (*gedcom.MultipleSexesWarning).String":                     multipleSexesGuard,
 	"P3 slice string in gedcom.NewUUIDFromString":                                    uuidPattern32,
@@ -727,6 +730,9 @@ func (c *e1ctx) discharge(s *e1.Site) (string, bool) {
 			return r, true
 		}
 		if r, ok := c.ruleFieldIndex(s); ok {
+			return r, true
+		}
+		if r, ok := ruleNonEmpty(s); ok {
 			return r, true
 		}
 	case "P4":
@@ -1808,4 +1814,103 @@ func (c *e1ctx) ruleFieldIndex(s *e1.Site) (string, bool) {
 		}
 	}
 	return "R-fieldidx: under the true edge of " + owner.Obj().Name() + "." + fname + " < len(" + owner.Obj().Name() + "." + su.FieldName(sf) + ") with nothing in between; every store to " + fname + " stores a non-negative constant, its own earlier value or that plus a non-negative amount", true
+}
+
+// ruleNonEmpty (R-nonempty): s[0] of a string that is not empty on every path: a non-empty constant, a value under
+// the failed side of an emptiness test (v == "", len(v) == 0), strings.ToLower/ToUpper/ToTitle of such a value (the
+// case mappings never delete a character), or a phi of such values (each edge judged where it leaves its predecessor).
+func ruleNonEmpty(s *e1.Site) (string, bool) {
+	ix, ok := s.Instr.(*ssa.Index)
+	if !ok {
+		return "", false
+	}
+	if bt, isB := ix.X.Type().Underlying().(*types.Basic); !isB || bt.Info()&types.IsString == 0 {
+		return "", false
+	}
+	if k, isK := su.ConstInt(ix.Index); !isK || k != 0 {
+		return "", false
+	}
+	// nonEmptySide: the successor index of block b on which v is known to be non-empty, or -1
+	nonEmptySide := func(b *ssa.BasicBlock, v ssa.Value) int {
+		iff, ok := b.Instrs[len(b.Instrs)-1].(*ssa.If)
+		if !ok {
+			return -1
+		}
+		bo, ok := iff.Cond.(*ssa.BinOp)
+		if !ok {
+			return -1
+		}
+		if bo.X == v {
+			if str, isK := su.ConstString(bo.Y); isK && str == "" {
+				switch bo.Op {
+				case token.NEQ:
+					return 0
+				case token.EQL:
+					return 1
+				}
+			}
+			return -1
+		}
+		if of, isLen := lenArgOf(bo.X); isLen && of == v {
+			k, isK := su.ConstInt(bo.Y)
+			if !isK {
+				return -1
+			}
+			switch {
+			case bo.Op == token.GTR && k >= 0, bo.Op == token.GEQ && k >= 1, bo.Op == token.NEQ && k == 0:
+				return 0
+			case bo.Op == token.EQL && k == 0, bo.Op == token.LSS && k == 1, bo.Op == token.LEQ && k == 0:
+				return 1
+			}
+		}
+		return -1
+	}
+	var nonEmpty func(v ssa.Value, at *ssa.BasicBlock, depth int) bool
+	nonEmpty = func(v ssa.Value, at *ssa.BasicBlock, depth int) bool {
+		if depth > 6 {
+			return false
+		}
+		if str, isK := su.ConstString(v); isK {
+			return str != ""
+		}
+		// a dominating emptiness test of v itself
+		for _, b := range at.Parent().Blocks {
+			side := nonEmptySide(b, v)
+			if side < 0 {
+				continue
+			}
+			t := b.Succs[side]
+			if len(t.Preds) == 1 && (t == at || t.Dominates(at)) {
+				return true
+			}
+		}
+		switch x := v.(type) {
+		case *ssa.Call:
+			for _, n := range []string{"ToLower", "ToUpper", "ToTitle"} {
+				if su.CalleeIs(&x.Call, "strings", n) {
+					return nonEmpty(x.Call.Args[0], x.Block(), depth+1)
+				}
+			}
+		case *ssa.Phi:
+			for i, e := range x.Edges {
+				pred := x.Block().Preds[i]
+				if side := nonEmptySide(pred, e); side >= 0 && pred.Succs[side] == x.Block() {
+					continue
+				}
+				if !nonEmpty(e, pred, depth+1) {
+					return false
+				}
+			}
+			return true
+		}
+		return false
+	}
+	if nonEmpty(ix.X, ix.Block(), 0) {
+		return "R-nonempty: the string is not empty on any path to the index (emptiness test / non-empty constant / case mapping of a non-empty string)", true
+	}
+	return "", false
+}
+
+func lenArgOf(v ssa.Value) (ssa.Value, bool) {
+	return lenArg(v)
 }
